@@ -1944,6 +1944,9 @@ func (e *Engine) execInstr1(fr *Frame, st *State, in ssa.Instruction) {
 	case *ssa.Field:
 		v := e.val(fr, x.X)
 		lo, hi := fieldRange(x.X.Type(), x.Field)
+		if hi > len(v.T) {
+			unsup("field %d of a %s value with %d leaves in %s (%s)", x.Field, x.X.Type(), len(v.T), fnName(fr.fn), x.X)
+		}
 		fr.regs[x] = e.unflat(v.T[lo:hi], x.Type())
 	case *ssa.FieldAddr:
 		v := e.val(fr, x.X)
